@@ -134,6 +134,12 @@ func (r *upcastRegistry) apply(data json.RawMessage, eventType string) (json.Raw
 				upcaster.FromType, upcaster.ToType, err)
 		}
 
+		// A raw upcaster may return a type other than its declared target;
+		// going back to a type that was already processed would never end
+		if appliedTypes[newType] {
+			return data, eventType, fmt.Errorf("eventbus: upcast loop detected")
+		}
+
 		currentData = newData
 		currentType = newType
 	}
